@@ -26,7 +26,7 @@ m = {
     "setup_cmd": "./bin/setup",
     "hooks": {
         "guard": "verif",
-        "enable": "go build -tags verif (bin/build.sh builds /verif/sim against /repo's working tree via a replace directive; the race-instrumented variant adds -race)",
+        "enable": "go build -tags verif (bin/build.sh builds /verif/sim against /repo's working tree through a generated -modfile with a replace directive; the race-instrumented variant used by C20 adds -race and is built from a scratch copy of that tree, .build/repo-inst, in which sim/cmd/instrument inserts statement-level simulation points; two workers of the single-task engines use a GOARCH=386 build)",
         "baseline_off_cmd": "cd /repo && go test -mod=mod -json -vet=off -count=1 -timeout 25m ./...",
         "source_commits": hooks_commits,
         "add_only": True,
